@@ -5,6 +5,7 @@ package main
 
 import (
 	"fmt"
+	"go/types"
 	"os"
 	"path/filepath"
 	"sort"
@@ -41,6 +42,9 @@ type Contract struct {
 	Fresh     bool
 	Det       bool
 	Used      bool
+	SpecDynSrc string   // "@T" specialisation: the contract holds for calls whose interface argument has dynamic type T
+	SpecDyn    types.Type
+	BaseKey    string
 	Uses      []string // lemmas / definitions from other contract files made visible to this function's proof
 }
 
@@ -314,8 +318,18 @@ func (db *SpecDB) stmt(path, pkgPath string, st rawLine, cur **Contract) error {
 		ax.E = e
 		db.Axioms = append(db.Axioms, ax)
 	case "func", "extern":
+		specDyn := ""
+		if i := strings.Index(rest, "@"); i >= 0 {
+			specDyn = strings.TrimSpace(rest[i+1:])
+			rest = strings.TrimSpace(rest[:i])
+		}
 		key := rest
-		if kw == "func" && pkgPath != "" {
+		if j := strings.Index(rest, "."); kw == "func" && j > 0 && !strings.HasPrefix(rest, "(") {
+			// alias.Func: a function of an imported package
+			if path, ok := db.Imports[path][rest[:j]]; ok {
+				key = path + "." + rest[j+1:]
+			}
+		} else if kw == "func" && pkgPath != "" {
 			// in-package name:  f   or (T).M  or (*T).M
 			if strings.HasPrefix(rest, "(*") {
 				key = "(*" + pkgPath + "." + rest[2:]
@@ -325,9 +339,13 @@ func (db *SpecDB) stmt(path, pkgPath string, st rawLine, cur **Contract) error {
 				key = pkgPath + "." + rest
 			}
 		}
+		base := key
+		if specDyn != "" {
+			key = key + "@" + specDyn + "@" + path
+		}
 		c := db.Contracts[key]
 		if c == nil {
-			c = &Contract{Key: key, File: path, Loops: map[int][]*Clause{}, External: kw == "extern"}
+			c = &Contract{Key: key, File: path, Loops: map[int][]*Clause{}, External: kw == "extern", SpecDynSrc: specDyn, BaseKey: base}
 			db.Contracts[key] = c
 		}
 		*cur = c
